@@ -113,6 +113,9 @@ def tlc(d, module, cfg_text, workers=4, timeout=900, env=None, heap="4g", extra=
     rc, out = sh(cmd, cwd=d, env=e, timeout=timeout + 60)
     if rc == 124:
         raise ToolError(f"TLC timeout ({timeout}s) on {module}")
+    if "Parsing or semantic analysis failed" in out:
+        # a specification that does not parse is a defect of the machinery, never a verdict about the code
+        raise ToolError(f"{module} does not parse:\n" + out[-3000:])
     return out
 
 
